@@ -35,6 +35,8 @@ def one(d):
         lines = p.stdout.splitlines()
         clauses = sorted({m.group(1) for l in lines for m in [re.search(r' x clause=(\S+)', l)] if m})
         summ = [l for l in lines if l.startswith(prop + ' ')][-1:]
+        if p.returncode == 1 and not any(l.startswith('VIOLATION property=%s ' % prop) for l in lines):
+            return sid, {'property': prop, 'exit': None, 'error': 'exit 1 without a VIOLATION line', 'tail': lines[-6:]}
         return sid, {'property': prop, 'exit': p.returncode, 'clauses': clauses[:8], 'summary': summ, 'wall_s': round(time.time() - t0),
                      'tail': lines[-6:] if p.returncode not in (0, 1) else []}
     except Exception as e:                                          # noqa
